@@ -285,7 +285,7 @@ def run_scenario(sc, rid):
                     pid = 0
             parsed[str(cid)] = pid
         fault_ev = next((ev for ev in rec.events if not ev["ok"] and sc.get("fault") and ev["n"] == sc["fault"]), None)
-        rec_out = {"id": rid, "names": spec_names, "tried": list(tried), "decin": decin, "snaps": snaps,
+        rec_out = {"id": rid, "kind": "mutate", "names": spec_names, "tried": list(tried), "decin": decin, "snaps": snaps,
                    "exit": result["exit_at"] if result["entry"] is not None else 0,
                    "outcome": "cancel" if sc["outcome"] == "cancel-subclass" else sc["outcome"], "exc": result["exc"],
                    "savefail": (result.get("auto", "") if sc["outcome"] == "normal" else "") or ("fault" if fault_ev else ""),
@@ -315,6 +315,65 @@ def run_scenario(sc, rid):
             shutil.rmtree(tmp, ignore_errors=True)
         if mem is not None:
             mem.close()
+
+
+def detect_sequence(rid0, seed):
+    """open the same path repeatedly on ONE filesystem object while its content changes between opens"""
+    import simfile
+    from fs.memoryfs import MemoryFS
+    rng = random.Random(seed)
+    ext = rng.choice(["sm", "ssc"])
+    kind = rng.choice(["native", "memory"])
+    tried = list(ENCS)
+    if rng.random() < 0.4:
+        rng.shuffle(tried)
+    conts = [c for _, c in contents(rng, ext) if len(c) < 4000]
+    recs = []
+    tmp = mem = None
+    try:
+        if kind == "native":
+            tmp = tempfile.mkdtemp(prefix="vdet_")
+            path = os.path.join(tmp, "song." + ext)
+            from simfile._private.nativeosfs import NativeOSFS
+            fsx = NativeOSFS()
+
+            def put(b):
+                with open(path, "wb") as f:
+                    f.write(b)
+        else:
+            mem = MemoryFS()
+            path = "/song." + ext
+            fsx = mem
+
+            def put(b):
+                mem.writebytes(path, b)
+        for step in range(rng.randint(2, 4)):
+            b = rng.choice(conts)
+            put(b)
+            dec = {e: (0 if decode_text(b, e) is None else 1) for e in tried}
+            r = {"id": rid0 + step, "kind": "detect", "tried": list(tried), "dec": dec, "exc": "", "got": "", "sametext": True}
+            try:
+                how = rng.random()
+                if how < 0.5:
+                    sf, enc = simfile.open_with_detected_encoding(path, try_encodings=list(tried), filesystem=fsx, strict=False)
+                else:
+                    with simfile.mutate(path, try_encodings=list(tried), filesystem=fsx, strict=False) as sf:
+                        raise simfile.CancelMutation()
+                    enc = None
+                if enc is None:
+                    sf, enc = simfile.open_with_detected_encoding(path, try_encodings=list(tried), filesystem=fsx, strict=False)
+                r["got"] = enc
+                want = type(sf)(string=decode_text(b, enc) or "", strict=False)
+                r["sametext"] = (cc.proj(sf) == cc.proj(want))
+            except Exception as e:  # noqa
+                r["exc"] = type(e).__name__
+            recs.append(r)
+    finally:
+        if tmp:
+            shutil.rmtree(tmp, ignore_errors=True)
+        if mem is not None:
+            mem.close()
+    return recs
 
 
 def strip(rec):
